@@ -507,6 +507,7 @@ structure LState where
   staleRootOk : Bool := false        -- a use of a lent handle succeeded after its call had returned
   staleAnyOk : Bool := false         -- the same for any handle, derived ones included
   aliasViol : Bool := false          -- mutable access through a handle while a handle derived from it was live
+  aliasDirect : Bool := false        -- the same, for handles derived in one step
   leaked : Bool := false             -- the end of a call left owners of that call in the nursery
   orphaned : Bool := false           -- a handle was dropped while a handle derived from it was live
 deriving Repr, Inhabited
@@ -563,7 +564,8 @@ def LState.noteAccess (s : LState) (i : Nat) (h : Handle) (mutable : Bool) : LSt
   { s with
     staleRootOk := s.staleRootOk || (h.parent.isNone && !s.active h.call)
     staleAnyOk := s.staleAnyOk || !s.active h.call
-    aliasViol := s.aliasViol || (mutable && s.hasLiveDesc i) }
+    aliasViol := s.aliasViol || (mutable && s.hasLiveDesc i)
+    aliasDirect := s.aliasDirect || (mutable && s.hasLiveChild i) }
 
 def mkRoot (cell call obj : Nat) (k : Kind) : Handle :=
   { cell := cell, call := call, kind := k, parent := none, obj := obj, depth := 0, anc := [],
